@@ -77,6 +77,15 @@ func C10(o *world.Obs) *Result {
 			}
 		}
 		if fromStore {
+			// A store that returns only the beginning of what was written (a truncated file, a
+			// short read) can be told from one that returns everything: a stored response that
+			// ends early must not be handed out as if it were whole.
+			if src, _ := o.FromStore(ex); src != nil && onlyPrefixFaults(o) && ex.Req.Method != http.MethodHead && !src.BodyFails() {
+				if ex.Resp.BodyErr != "" || !bytes.Equal(ex.Resp.Body, src.Body) {
+					r.Fail("C10", "truncated-entry-served", ex.Idx, "stored reply s%d (%d bytes) is served from a store that returned truncated bytes: the client read %d bytes, error %q; store faults: %s; %s",
+						src.Serial, len(src.Body), len(ex.Resp.Body), ex.Resp.BodyErr, faultList(faultFired[ex.Idx]), SummarizeExchange(o, ex))
+				}
+			}
 			continue
 		}
 		reqCC := model.ParseCC(ReqHeader(ex.Req))
@@ -134,6 +143,20 @@ func C10(o *world.Obs) *Result {
 			}
 		}
 	}
+	// every origin reply the cache does not hand on is closed (a dropped body pins a
+	// connection of a real transport: with a connection limit the next round trip hangs)
+	panicked := false
+	for _, ex := range o.Exchanges {
+		if ex.Panic != "" {
+			panicked = true
+		}
+	}
+	if !panicked && o.Fatal == "" {
+		for _, c := range UnclosedBodies(o) {
+			r.Fail("C10", "upstream-body-not-closed", c.Ex, "the body of origin reply s%d (status %d, %s call of exchange #%d) was never closed", c.Serial, c.Status, map[bool]string{true: "foreground", false: "background"}[c.Fg], c.Ex)
+			break
+		}
+	}
 	if o.Leak != "" && !strings.Contains(o.Leak, "deadlock") {
 		r.Fail("C10", "goroutine-leak", -1, "goroutines still blocked when the scenario ended: %s", firstLine(o.Leak))
 	}
@@ -179,4 +202,23 @@ func bytesMutated(o *world.Obs) bool {
 		}
 	}
 	return false
+}
+
+// onlyPrefixFaults: every store fault of the scenario either fails the operation or returns a
+// prefix of the bytes that were written (no flipped or foreign bytes), and nothing else tampers
+// with the store.
+func onlyPrefixFaults(o *world.Obs) bool {
+	for _, f := range o.Sc.Faults {
+		switch f.Kind {
+		case "err", "notexist", "trunc", "empty", "rlimit":
+		default:
+			return false
+		}
+	}
+	for _, st := range o.Sc.Steps {
+		if st.Op == "corrupt" {
+			return false
+		}
+	}
+	return len(o.Sc.Faults) > 0
 }
